@@ -152,11 +152,13 @@ def handle_result(run, r, c):
     rep = None
     if c is not None:
         if not c.native: c.build_native()
-        rep = c.run_native('real', inp, r['inputs'].get('OPTS') if isinstance(r['inputs'].get('OPTS'), int) else None)
+        rep = c.run_native('real', inp, r['inputs'].get('OPTS') if isinstance(r['inputs'].get('OPTS'), int) else None, extra=r['inputs'])
         run.replays += 1
     desc = '; '.join(sorted(set(f['desc'] for f in (props + other + unwind + mach))))[:300]
     robj = {'query': r['id'], 'unit': r['meta'].get('unit'), 'L': r['meta'].get('L'), 'opts': r['meta'].get('opts'), 'input_hex': vlib.hexs(inp), 'input': inp,
-            'failed': r['failed'][:8], 'native': rep, 'grammar': c.g.name if c else None, 'asserts': c.asserts if c else None}
+            'failed': r['failed'][:8], 'native': rep, 'grammar': c.g.name if c else None, 'asserts': c.asserts if c else None,
+            'variant': getattr(c, 'variant', 'plain'), 'ctxkind': getattr(c, 'ctxkind', 0), 'extra': {k: v for k, v in r['inputs'].items() if k.startswith('ANS_')}, 'opts_value': r['inputs'].get('OPTS'),
+            'ctx_rules': [i for i, x in enumerate(c.g.rules) if x['f'] == 'ctxhash'] if c else []}
     if mach and any('no body' in f['desc'] for f in mach):
         run.inconclusive.append('%s: %s' % (r['id'], desc)); return
     if rep and rep['verdict'] in ('FAIL', 'CRASH'):
